@@ -3,33 +3,18 @@ package main
 import (
 	"bytes"
 	"context"
-	"errors"
 	"fmt"
 	"time"
 
 	"github.com/hedzr/logg/slog"
 )
 
-type W struct{ bytes.Buffer }
-
 func main() {
 	ts := time.Date(2024, 3, 4, 5, 6, 7, 123456789, time.UTC)
-	for _, mode := range []string{"json", "logfmt", "color"} {
+	for _, msg := range []string{"hello", "  lead", "a  b", "trail  ", "", "\nsecond", "a\nb\nc\n", "a\n\nb", "<b>x</b> y", "<b>x", "a & b", "x < y", "tab\there", "é"} {
 		var w bytes.Buffer
 		l := slog.New("lg").SetWriter(&w).SetErrorWriter(&w).SetLevel(slog.TraceLevel)
-		switch mode {
-		case "json":
-			l.SetJSONMode()
-		case "logfmt":
-			l.SetColorMode(false)
-		}
-		attrs := slog.Attrs{slog.String("s", "a b\"c"), slog.Int("i", -3), slog.Uint("u", 7), slog.Float64("f", 1.5),
-			slog.Any("nil", nil), slog.Any("bytes", []byte("xy")), slog.Duration("d", 1500*time.Millisecond),
-			slog.Time("t", ts), slog.Any("err", errors.New("boom")), slog.Group("g", "x", 1, slog.Group("h", "y", 2)),
-			slog.Any("ss", []string{"a b", "c"}), slog.Any("is", []int{1, 2}), slog.Any("st", struct{ A int }{1}),
-			slog.Complex128("c", complex(1, -2)), slog.Bool("b", true), slog.Group("e"), slog.String("z", "last")}
-		l.WriteThru(context.Background(), slog.InfoLevel, ts, 0, "hello\nworld", attrs)
-		l.WriteThru(context.Background(), slog.InfoLevel, ts, 0, "m", slog.Attrs{slog.Group("g", "x", 1), slog.Int("z", 1)})
-		fmt.Printf("--- %s\n%q\n", mode, w.String())
+		l.WriteThru(context.Background(), slog.InfoLevel, ts, 0, msg, slog.Attrs{slog.Int("i", 1)})
+		fmt.Printf("%q\n  -> %q\n", msg, slog.StripEscapes(w.String()))
 	}
 }
